@@ -66,6 +66,9 @@ func (o *vfWriter) Emit(v any) {
 	if err != nil {
 		panic(err)
 	}
+	if m, ok := v.(map[string]any); ok && m["a"] == "reset" {
+		o.w.Flush() //nolint:errcheck // a crash while executing a script leaves every earlier trace on disk
+	}
 	o.w.Write(b)      //nolint:errcheck
 	o.w.WriteByte(10) //nolint:errcheck
 	o.n++
